@@ -40,6 +40,10 @@ var yOperands = []yOperand{
 	{"assert", "i.(int)"},
 	{"paren", "(x)"},
 	{"nil", "nil"},
+	{"funcvalcall", "hook(7)"},
+	{"fieldfunccall", "s.hook(7)"},
+	{"negliteral", "-7"},
+	{"convliteral", "int64(7)"},
 	{"stringcat", "\"v\" + fmt.Sprint(x)"},
 	{"sliceexpr", "a[:1]"},
 }
@@ -56,7 +60,10 @@ import (
 
 type pt struct{ a, b int }
 
-type holder struct{ f int }
+type holder struct {
+	f    int
+	hook func(int) int
+}
 
 func (h *holder) get() int { return h.f * 10 }
 
@@ -94,7 +101,9 @@ func yexprText(id string, op yOperand, pos string) string {
 	bump := "x++; s.f++; a[0]++; i = x; p = &a[0]"
 	decl := func() {
 		w(1, "x := 1")
-		w(1, "s := &holder{f: 1}")
+		w(1, "hook := func(n int) int { c.X(96, n*x); return n * x }")
+		w(1, "s := &holder{f: 1, hook: hook}")
+		w(1, "_ = hook")
 		w(1, "a := []int{1, 2}")
 		w(1, "var i any = 1")
 		w(1, "p := &x")
